@@ -357,6 +357,7 @@ func (w *World) Send(sid string, o SendOpt) int {
 			if h := w.hooks["cb"]; h != nil {
 				h(sid, id)
 			}
+			w.g.at("L.cb", sid) // a send callback that takes its time
 		}
 	}
 	w.rec.Log("app.send.call", append(w.snap(s), "id", id, "bin", o.Bin, "len", len(p), "cb", o.Cb, "pre", o.PreEnc)...)
